@@ -1,6 +1,97 @@
-(* placeholder; theorems follow *)
-From Coq Require Import String List.
-From Glom Require Import Base.PyVal Model.Interp.
-Theorem head_mode_nil_C10 : head_mode nil = AUTO.
-Proof. reflexivity. Qed.
-Print Assumptions head_mode_nil_C10.
+(* Properties/C10.v — M, And, Or, Not, Switch and Check decide like the boolean expressions denoted. *)
+From Coq Require Import String ZArith Bool List.
+From Glom Require Import Base.PyVal Model.TEval Model.Exc Model.Interp Proofs.InterpProofs Proofs.MatchProofs.
+Import ListNotations.
+Local Open Scope string_scope.
+Local Open Scope list_scope.
+
+(* And passes iff all children pass, yielding the last result ... *)
+Theorem and_yields_last : forall rec sc t ss res st res' st',
+  all_pass rec sc t ss res st res' st' -> and_loop rec sc t ss res st = (Ok res', st').
+Proof. exact and_all_pass. Qed.
+Print Assumptions and_yields_last.
+(* ... and stops at the first failing child (the children after it are not evaluated) *)
+Theorem and_stops_at_first_failure : forall rec sc t pre s post res st v st1 e st2,
+  all_pass rec sc t pre res st v st1 -> rec sc t s st1 = (Raise e, st2) ->
+  and_loop rec sc t (pre ++ s :: post) res st = (Raise e, st2).
+Proof. exact and_first_failure. Qed.
+Print Assumptions and_stops_at_first_failure.
+
+(* Or yields the first passing child's result without evaluating later children; it fails iff all are rejected *)
+Theorem or_yields_first_passing : forall rec sc t pre s post st st1 v f st2,
+  all_rejected rec sc t pre st st1 -> rec sc t s st1 = (Ok (v, f), st2) ->
+  or_loop rec sc t (pre ++ s :: post) st = (Ok v, st2).
+Proof. exact or_first_pass. Qed.
+Print Assumptions or_yields_first_passing.
+Theorem or_fails_iff_all_rejected : forall rec sc t pre s st st1 e st2,
+  all_rejected rec sc t pre st st1 -> rec sc t s st1 = (Raise e, st2) ->
+  or_loop rec sc t (pre ++ [s]) st = (Raise e, st2).
+Proof. exact or_all_rejected. Qed.
+Print Assumptions or_fails_iff_all_rejected.
+
+(* Not inverts, yields the target, and its own rejection is a MatchError *)
+Theorem not_yields_target : forall fixed rec sc t s st,
+  glom_body fixed rec sc t (SNot s) st =
+  match rec (mkFrame [] (head_mode sc) false [] :: sc) t s st with
+  | (Ok _, st') => (Raise (simple_exn "MatchError"), st')
+  | (Raise e, st') => if is_glom_error e then (Ok (t, mkFrame [] (head_mode sc) false []), st') else (Raise e, st')
+  | (Unmodelled u, st') => (Unmodelled u, st')
+  | (OutOfFuel, st') => (OutOfFuel, st') end.
+Proof. exact not_inverts. Qed.
+Print Assumptions not_yields_target.
+
+(* M op c passes exactly when the Python comparison is true (returning the target), otherwise MatchError *)
+Theorem m_comparison_decides : forall fixed rec sc t op c st,
+  glom_body fixed rec sc t (SMExpr SM op (SLit c)) st =
+  match m_compare op t c with
+  | Ok true => (Ok (t, mkFrame [] (head_mode sc) false []), st)
+  | Ok false => (Raise (simple_exn "MatchError"), st)
+  | Raise e => if String.eqb (ecls e) "TypeError" then (Raise (simple_exn "MatchError"), st) else (Raise e, st)
+  | Unmodelled u => (Unmodelled u, st)
+  | OutOfFuel => (OutOfFuel, st) end.
+Proof. exact m_expr_decides. Qed.
+Print Assumptions m_comparison_decides.
+Theorem m_alone_is_truthiness : forall fixed rec sc t st,
+  glom_body fixed rec sc t SM st =
+  if truthy t then (Ok (t, mkFrame [] (head_mode sc) false []), st) else (Raise (simple_exn "MatchError"), st).
+Proof. exact m_truthy_decides. Qed.
+Print Assumptions m_alone_is_truthiness.
+
+(* Switch evaluates only the value spec of the first case whose key passes; no passing key is a MatchError (None here) *)
+Theorem switch_first_matching_case_only : forall rec own sc t pre k v post st st1 x child st2,
+  keys_rejected rec own sc t pre st st1 -> rec (own :: sc) t k st1 = (Ok (x, child), st2) ->
+  switch_loop true rec own sc t (pre ++ (k, v) :: post) st
+  = (let! (res, _) := rec (set_mode (fmode own) child :: own :: sc) t v in ret (Some res)) st2.
+Proof. exact switch_first_match. Qed.
+Print Assumptions switch_first_matching_case_only.
+Theorem switch_no_case : forall rec own sc t cases st st1,
+  keys_rejected rec own sc t cases st st1 -> switch_loop true rec own sc t cases st = (Ok None, st1).
+Proof. exact switch_no_match. Qed.
+Print Assumptions switch_no_case.
+
+(* defaults are honoured *)
+Theorem and_default : forall fixed rec sc t ss d st e st1,
+  let own := set_arg false (mkFrame [] (head_mode sc) (head_arg sc) []) in
+  and_loop rec (own :: sc) t ss t st = (Raise e, st1) -> is_glom_error e = true ->
+  glom_body fixed rec sc t (SAnd ss (Some d)) st = (let! v := arg_val_i rec own sc t d in ret (v, own)) st1.
+Proof. exact and_default_honoured. Qed.
+Print Assumptions and_default.
+
+(* Check (no default, no validators): passes iff every given condition holds; no condition = truthiness *)
+Theorem check_enforces_conditions : forall fixed rec sc t types vals inst st,
+  glom_body fixed rec sc t (SCheck None types vals [] inst None) st =
+  let own := mkFrame [] (head_mode sc) false [] in
+  let bad_type := match types with [] => false | _ => negb (existsb (pytype_eqb (type_of t)) types) end in
+  let bad_val := match vals with [] => false | _ => negb (mem py_eqb t vals) end in
+  let bad_inst := match inst with [] => false | _ => negb (existsb (isinstance t) inst) end in
+  let implicit := match types, vals, inst with [], [], [] => true | _, _, _ => false end in
+  if bad_type || bad_val || bad_inst || (implicit && negb (truthy t))
+  then (Raise (simple_exn "CheckError"), st) else (Ok (t, own), st).
+Proof. exact check_decides. Qed.
+Print Assumptions check_enforces_conditions.
+
+(* non-vacuity *)
+Example ex_or : fst (glom_top true [] (VInt 0) (SOr [SM; SVal VNone] None)) = Ok VNone.
+Proof. vm_compute. reflexivity. Qed.
+Example ex_and_default : fst (glom_top true [] (VInt 1) (SAnd [SAnd [SMExpr SM ">" (SLit (VInt 5))] (Some (SLit (VInt 7))); SMatch (SType TyInt) None] None)) = Ok (VInt 7).
+Proof. vm_compute. reflexivity. Qed.
